@@ -10,6 +10,7 @@ import (
 	"path/filepath"
 	"sort"
 	"strings"
+	"time"
 )
 
 // ---------- independent expectations (oracle side), written from the protocol description ----------
@@ -154,6 +155,50 @@ func c02Stream(o *out, r *rng, thorough bool) {
 			o.count(fmt.Sprintf("size:%d", sz))
 		}
 	}
+	// a regular file that happens to be NAMED like the reserved path: only "/CLOSEFILE" itself closes,
+	// a file of that name in a directory is opened and read like any other
+	{
+		t := &tree{}
+		t.add(tnode{path: "/", kind: 'd', mtime: genMtime(r)})
+		t.add(tnode{path: "/d", kind: 'd', mtime: genMtime(r)})
+		inDir := tnode{path: "/d/CLOSEFILE", kind: 'f', size: 5000, seed: 31, mtime: genMtime(r)}
+		t.add(inDir)
+		t.add(tnode{path: "/CLOSEFILE", kind: 'f', size: 300, seed: 32, mtime: genMtime(r)})
+		reqs := []creq{{op: opStatFile, path: "/d/CLOSEFILE"}, {op: opOpenFile, path: "/d/CLOSEFILE"}, {op: opReadFile, a: 100, b: 0},
+			{op: opReadFileCritical, a: 200, b: 4000}, {op: opOpenFile, path: "/CLOSEFILE"}, {op: opReadFile, a: 10, b: 0},
+			{op: opOpenFile, path: "/d/../d/CLOSEFILE"}, {op: opReadFile, a: 6000, b: 10}, {op: opOpenFile, path: "CLOSEFILE"},
+			{op: opReadFile, a: 10, b: 0}, {op: opOpenFile, path: "/d/CLOSEFILE/"}, {op: opReadFile, a: 7, b: 4999}}
+		o.count("closefile-named-file")
+		runWithOracle(o, t, false, reqs, "closefile-name", func(root string, nodes []tnode) string {
+			var sb strings.Builder
+			open := false
+			for i, q := range reqs {
+				switch q.op {
+				case opStatFile:
+					fmt.Fprintf(&sb, "r%d=%s ", i, digest(append(append(be64(5000), be64(uint64(inDir.mtime))...), make([]byte, 17)...)))
+				case opOpenFile:
+					if filepath.Clean("/"+q.path) == "/CLOSEFILE" {
+						open = false
+						fmt.Fprintf(&sb, "r%d=%s ", i, digest(make([]byte, 16)))
+					} else {
+						open = true
+						fmt.Fprintf(&sb, "r%d=%s ", i, digest(append(be64(5000), be64(uint64(inDir.mtime))...)))
+					}
+				case opReadFile:
+					if !open {
+						fmt.Fprintf(&sb, "r%d=%s ", i, digest(be32(0xffffffff)))
+						continue
+					}
+					d := inDir.slice(int64(q.b), int64(q.a))
+					fmt.Fprintf(&sb, "r%d=%s ", i, digest(append(be32(uint32(len(d))), d...)))
+				case opReadFileCritical:
+					fmt.Fprintf(&sb, "r%d=%s ", i, digest(inDir.slice(int64(q.b), int64(q.a))))
+				}
+			}
+			sb.WriteString("end=-")
+			return sb.String()
+		})
+	}
 }
 
 // c02VisoStream: the same read rule through a generated image served over the connection.
@@ -220,6 +265,14 @@ func statReal(p string) (realInfo, bool) {
 		ri.size = st.Size()
 	}
 	return ri, true
+}
+
+// dirSizeAnswer: what GET_DIR_SIZE must answer for a path: -1 unless it is an existing directory
+func dirSizeAnswer(p string) int64 {
+	if st, err := os.Stat(p); err != nil || !st.IsDir() {
+		return -1
+	}
+	return realDirSize(p)
 }
 
 func realDirSize(p string) int64 {
@@ -438,7 +491,7 @@ func c06Run(o *out, t *tree, reqs []creq, key string) {
 						}
 						fmt.Fprintf(&sb, "r%d=%s ", i, digest(b))
 					case opGetDirSize:
-						fmt.Fprintf(&sb, "r%d=%s ", i, digest(be64(uint64(realDirSize(filepath.Join(root, q.path))))))
+						fmt.Fprintf(&sb, "r%d=%s ", i, digest(be64(uint64(dirSizeAnswer(filepath.Join(root, q.path))))))
 					}
 				}
 				sb.WriteString("end=-")
@@ -695,5 +748,56 @@ func init() {
 	streams["c02"] = func(o *out, r *rng, thorough bool) { c02Stream(o, r, thorough); c02VisoStream(o, r, thorough) }
 	streams["c06"] = c06Stream
 	streams["c17"] = c17Stream
-	streams["c05"] = c05Stream
+	streams["c05"] = func(o *out, r *rng, thorough bool) { c05Stream(o, r, thorough); c05Big(o) }
+}
+
+// c05Big: WRITE_FILE announcing 2^31 bytes (more than the 32-bit answer can report) with writing enabled.
+// The payload is streamed (zeros); the model is asked for its answer to the same command without the
+// payload being materialised on either side. Observed: the answer, that the connection is still in step,
+// and how many bytes reached the file.
+func c05Big(o *out) {
+	for _, announced := range []uint64{1 << 31, 1<<32 - 1} {
+		res := "error"
+		withTempRoot(func(root string) {
+			env := newConnEnv(root, true, 65536)
+			defer env.close()
+			lc := &lockClient{c: env.ln.dial(), sessionStart: time.Now().Unix(), timeout: 120 * time.Second}
+			defer lc.c.Close()
+			if ob := lc.do(creq{op: opCreateFile, path: "/up.bin"}, false); ob.closed || ob.timeout {
+				res = "create-failed"
+				return
+			}
+			hdr := creq{op: opWriteFile, announced: uint32(announced)}.bytes()
+			go func() {
+				lc.c.Write(hdr[:16])
+				chunk := make([]byte, 1<<20)
+				for left := announced; left > 0; {
+					n := uint64(len(chunk))
+					if left < n {
+						n = left
+					}
+					if _, err := lc.c.Write(chunk[:n]); err != nil {
+						return
+					}
+					left -= n
+				}
+			}()
+			b, closed, to := lc.readN(4)
+			if closed || to {
+				res = fmt.Sprintf("resp=none closed=%v timeout=%v", closed, to)
+				return
+			}
+			insync := 0
+			if ob := lc.do(creq{op: opStatFile, path: "/"}, false); !ob.closed && !ob.timeout && len(ob.data) == 33 {
+				insync = 1
+			}
+			size := int64(-1)
+			if st, err := os.Stat(filepath.Join(root, "up.bin")); err == nil {
+				size = st.Size()
+			}
+			res = fmt.Sprintf("resp=%x insync=%d size=%d", b, insync, size)
+		})
+		o.count("big-write")
+		o.emit(fmt.Sprintf("c05big %d", announced), res, "", fmt.Sprintf("big-write-%d", announced))
+	}
 }
